@@ -384,6 +384,12 @@ func (d *diff) compareResults(dctx *diffCtx, r Range, myRes, otherRes RangeResul
 		dctx.prepare = append(dctx.prepare, r)
 		return
 	}
+	if !canDivide(r.From, r.To, d.divideFactor) {
+		// too narrow to be divided on either side: compare the elements
+		r.Elements = true
+		dctx.prepare = append(dctx.prepare, r)
+		return
+	}
 	rangeTuples := genTupleRanges(r.From, r.To, d.divideFactor)
 	for _, tuple := range rangeTuples {
 		dctx.prepare = append(dctx.prepare, Range{From: tuple.from, To: tuple.to})
